@@ -98,6 +98,9 @@ fn shrink_env(e: &EnvPlan) -> Vec<EnvPlan> {
     if e.buffered {
         out.push(EnvPlan { buffered: false, ..e.clone() });
     }
+    if e.shared_pos {
+        out.push(EnvPlan { shared_pos: false, ..e.clone() });
+    }
     if e.faults.len() > 1 {
         for i in 0..e.faults.len() {
             let mut f = e.faults.clone();
